@@ -26,6 +26,12 @@ RULE = ('catalogue-exhaustive (thorough; quick samples 16 spellings of the '
         'text (forces the appended newline). Non-trivial = spelling differs '
         'from the canonical name or codec emits a BOM; distinct = (spelling, '
         'line endings, text).')
+RULE += (
+         ' Also: codec names that fail to resolve on first use and are '
+         'provided by a codecs.register search function afterwards, and '
+         'aliases added to encodings.aliases after pydiffx was imported. '
+         'Process axes (DESIGN 2.8): 2 of 16 shards run under python -O, 4 '
+         'of 16 after a hostile warm-up of the library.')
 FLOOR = {'quick': 3000, 'thorough': 30000}
 REQUIRED_REACH = ['utils/text.py:']
 REQUIRED_COUNTERS = ['spellings', 'newline_helper_checks',
